@@ -31,12 +31,13 @@ READER_Q = "eolib.data.eo_reader.EoReader"
 
 class ZSeq:
     """a z3 sequence value: bytes / str (code points) / tuple of ints / objects / strings"""
-    __slots__ = ("t", "elem", "nonneg")
+    __slots__ = ("t", "elem", "nonneg", "mutable")
 
-    def __init__(self, t, elem="int", nonneg=False):
+    def __init__(self, t, elem="int", nonneg=False, mutable=False):
         self.t = t
         self.elem = elem      # int | obj:<class> | str
         self.nonneg = nonneg  # domain: integer elements are >= 0 (instantiated at each access)
+        self.mutable = mutable  # a bytearray / list (as opposed to bytes / str / tuple)
 
 
 class MaybeV:
@@ -391,6 +392,9 @@ class GenExec(Exec):
             if o is not None and o.cls is not None and o.cls.qualname == WRITER_Q:
                 return z3.Length(o.fields["data"].t)
             args = [a] + list(args[1:])
+        if n == "bytes" and args and (isinstance(args[0], ZSeq) or isinstance(args[0], MaybeV)):
+            a = self.none_use(args[0], "bytes()") if isinstance(args[0], MaybeV) else args[0]
+            return ZSeq(a.t, a.elem, a.nonneg, mutable=False)          # an immutable copy with the same contents
         if n == "tuple" and args:
             a = args[0]
             if isinstance(a, MaybeV):
@@ -590,7 +594,7 @@ class GenExec(Exec):
             if not n.eq(V.REM(st)):
                 raise Unsupported("get_bytes with a length other than reader.remaining")
             o.fields["st"] = V.skip(self, st, n)
-            return ZSeq(V.VBLOB(st), "int")
+            return ZSeq(V.VBLOB(st), "int", mutable=True)        # EoReader.get_bytes returns a bytearray
         if name == "next_chunk":
             self.oblige("no-exc", V.CH(st), f"next_chunk@L{node.lineno}",
                         {"why": "RuntimeError: next_chunk outside chunked reading mode"})
